@@ -324,6 +324,8 @@ class Recorder:
         self.phase_noise = None
         self.noise_draws = 0
         self.keep = []           # keeps nodes alive so id() stays unique
+        self.pre_snap = {}       # id(node) -> snapshot of node.position just before populate() ran on it
+        self.born = {}           # id(child) -> snapshot of its position right after the populate() that created it
 
     # --- stand-ins -------------------------------------------------------
     def multinomial(self, orig):
@@ -417,7 +419,7 @@ class RecEval:
     def evaluate(self, pos):
         raw, v = self.inner.evaluate(pos)
         node, is_root = self.rec.cur if self.rec.cur else (None, False)
-        self.rec.evals.append({"node": id(node) if node is not None else None, "pos": pos,
+        self.rec.evals.append({"node": id(node) if node is not None else None, "pos": snap(pos),
                                "raw": [float(x) for x in raw.tolist()], "value": v, "is_root": is_root,
                                "noise": None, "phase": len(self.rec.phases) - 1})
         if node is not None:
@@ -455,11 +457,15 @@ def make_engine(cfg, evaluator, rec):
             rec.cur = (node, is_root)
             rec.cur_noise = None
             before = len(rec.evals)
+            rec.pre_snap.setdefault(id(node), snap(node.position))
+            rec.keep.append(node)
             try:
                 return super().populate(node, is_root)
             finally:
                 if len(rec.evals) > before:
                     rec.evals[-1]["noise"] = rec.cur_noise
+                    for c in (node.children or []):
+                        rec.born.setdefault(id(c), snap(c.position))
                 rec.cur = None
     return RecMCTS(cfg, RecEval(evaluator, rec))
 
@@ -505,10 +511,11 @@ def do_search(spec, record_solver=False, select=False):
                       root_noise_mix=(noise["mix"] if noise else 0.25),
                       C=spec["C"], cutoff_prob=spec["cutoff"])
     engine = make_engine(cfg, ev, rec)
+    root_snap = snap(pos)            # taken before anything is searched; the model's input
     root = mcts.Node(position=pos, move=None)
-    root_code = pos_code(pos)
     tree = root
-    trace = {"spec": spec, "root_pos": pos, "rec": rec, "crash": None, "select": None, "n": n}
+    expected = root_snap             # what the current tree's position must be, derived from root_snap only
+    trace = {"spec": spec, "root_pos": pos, "root_snap": root_snap, "rec": rec, "crash": None, "select": None, "n": n}
     with rec.patched(record_solver):
         try:
             for j, ph in enumerate(spec["phases"]):
@@ -519,11 +526,16 @@ def do_search(spec, record_solver=False, select=False):
                     i = pick % len(tree.children)
                     actual.append(i)
                     tree = tree.children[i]
+                    try:
+                        expected = legal_ids(expected).get(encoding.encode_move(size, tree.move))
+                    except KeyError:
+                        expected = None
+                    if expected is None:        # the child's move is not a legal table move: the auditor reports it
+                        expected = snap(tree.position)
                 rec.phase_noise = phase_noise(spec, j, n)
                 rec.phases.append({"path": actual, "limit": ph["limit"], "noise": rec.phase_noise, "css": [],
                                    "calls": [], "sims_before": tree.simulations, "pos": tree.position,
-                                   "tree_id": id(tree),
-                                   "code": pos_code(tree.position)})
+                                   "tree_id": id(tree), "snap_before": snap(tree.position)})
                 cfg.simulation_limit = ph["limit"]
                 out = engine.analyze_tree(tree)
                 phr = rec.phases[-1]
@@ -534,8 +546,10 @@ def do_search(spec, record_solver=False, select=False):
                     rec.problems.append({"clause": "the root has exactly n visits (a re-used tree reaches the limit)",
                                          "phase": j, "limit": ph["limit"], "visits_before": phr["sims_before"],
                                          "visits_after": tree.simulations})
-                if tree.position is not phr["pos"] or pos_code(tree.position) != phr["code"]:
-                    rec.problems.append({"clause": "the searched position is left untouched", "phase": j})
+                if tree.position is not phr["pos"] or snap(tree.position) != phr["snap_before"]:
+                    rec.problems.append({"clause": "the searched position is left untouched", "phase": j,
+                                         "position_before": j_snap(phr["snap_before"]),
+                                         "position_after": takio.j_pos(tree.position)})
             if select and tree.children:      # a move is requested only where there is one to play
                 rec.choices, rec.calls = [], []
                 m = engine.select_root_move(tree)
@@ -549,9 +563,11 @@ def do_search(spec, record_solver=False, select=False):
         except Exception as e:  # noqa
             rec.problems.append({"clause": "the search completes", "exception": repr(e)[:300]})
             trace["crash"] = repr(e)[:300]
-    if pos_code(pos) != root_code:
-        rec.problems.append({"clause": "the searched position is left untouched (first root)"})
+    if snap(pos) != root_snap:
+        rec.problems.append({"clause": "the searched position is left untouched (first root)",
+                             "position_before": j_snap(root_snap), "position_after": takio.j_pos(pos)})
     trace["tree"] = tree
+    trace["tree_expected"] = expected
     return trace
 
 
@@ -594,9 +610,23 @@ def audit(trace, max_problems=5):
             bad(f"{what} is a finite number", path, got=repr(x))
             return Fraction(0)
 
-    def walk(node, path):
+    def diff_squares(a, b):
+        return [{"square": [i % a[0], i // a[0]], "expected": list(x), "found": list(y)}
+                for i, (x, y) in enumerate(zip(a[3], b[3])) if x != y][:6]
+
+    def walk(node, path, pos):
+        """pos = the snapshot this node's position must equal, derived from the pre-search snapshot of the root by
+        the rules applied to private copies - never from the search's own (possibly aliased) objects"""
         stats["nodes"] += 1
-        pos = node.position
+        now = snap(node.position)
+        for what, got in (("after the search", now), ("when it was expanded", rec.pre_snap.get(id(node))),
+                          ("when it was created", rec.born.get(id(node)))):
+            if got is not None and got != pos:
+                bad("the searched position is left untouched" if not path else
+                    "each child holds the parent's position after its move", path, when=what,
+                    move=None if node.move is None else takio.j_move(node.move),
+                    expected=j_snap(pos), differing_squares_color_kind=diff_squares(pos, got))
+                break
         o = outcome(pos)
         sims, value, v0 = node.simulations, fr(node.value, "value", path), fr(node.v_zero, "v_zero", path)
         if node.children is None:
@@ -627,7 +657,7 @@ def audit(trace, max_problems=5):
             return
         used_evals.add(ei)
         e = rec.evals[ei]
-        n = encoding.n_moves_for_size(pos.size)
+        n = encoding.n_moves_for_size(pos[0])
         ph = rec.phases[e["phase"]]
         noise = ph["noise"] if (spec.get("noise") and e["node"] == ph["tree_id"]) else None
         if (noise is None) != (e["noise"] is None):
@@ -638,23 +668,24 @@ def audit(trace, max_problems=5):
         if v0 != Fraction(e["value"]):
             bad("v_zero is the node's own evaluation", path, v_zero=str(v0), evaluation=e["value"])
         legal = legal_ids(pos)
+        if pos in MUTATING:
+            stats["move_mutates_position"] += 1
+            bad("the searched position is left untouched: trying a move (what populate does for every candidate id) "
+                "modifies the position it is applied to", path, position=j_snap(pos),
+                moves=[{"id": i, "move": takio.j_move(encoding.decode_move(pos[0], i)),
+                        "differing_squares_color_kind": diff_squares(pos, after)} for i, after in MUTATING[pos][:4]])
         want = [i for i in range(len(pri)) if pri[i] >= cutoff and i in legal]
         if not want:
             stats["hypothesis_not_met"] += 1
         if any(pri[i] == cutoff for i in want):
             stats["prior_exactly_at_cutoff"] += 1
         got_moves = [c.move for c in node.children]
-        want_moves = [encoding.decode_move(pos.size, i) for i in want]
+        want_moves = [encoding.decode_move(pos[0], i) for i in want]
         if got_moves != want_moves:
             bad("children are one-to-one with the legal moves whose prior reaches the cutoff (id order)", path,
                 children=[takio.j_move(m) for m in got_moves][:12], expected_ids=want[:40],
                 expected=[takio.j_move(m) for m in want_moves][:12])
             return
-        for i, c in zip(want, node.children):
-            if c.position != legal[i]:
-                bad("each child holds the parent's position after its move", path + [want.index(i)],
-                    move=takio.j_move(c.move), child=takio.j_pos(c.position), expected=takio.j_pos(legal[i]))
-                return
         cp = node.child_probs
         if cp is None or len(cp) != len(want):
             bad("child priors are the evaluator's priors renormalised", path, n_priors=None if cp is None else len(cp),
@@ -678,11 +709,11 @@ def audit(trace, max_problems=5):
         if value != v0 - cv:
             bad("accumulated value is own evaluation minus the children's accumulated values", path,
                 value=str(value), v_zero=str(v0), children_sum=str(cv))
-        for j, c in enumerate(node.children):
-            walk(c, path + [j])
+        for j, (i, c) in enumerate(zip(want, node.children)):
+            walk(c, path + [j], legal[i])
 
     if trace.get("tree") is not None:
-        walk(trace["tree"], [])
+        walk(trace["tree"], [], trace["tree_expected"])
     problems.extend(rec.problems)      # what the driver saw while searching (visit counts, crashes), after the tree's clauses
     stats["evals"] = len(rec.evals)
     stats["simulations"] = sum(len(p["css"]) for p in rec.phases)
@@ -745,7 +776,7 @@ def case_term(trace):
     spec = trace["spec"]
     mix = spec["noise"]["mix"] if spec.get("noise") else 0.25
     phs = clist([c_phase(p, False) for p in trace["rec"].phases])
-    return (f"({c_fme(f32(spec['cutoff']))}, {c_fme(mix)}, {takio.c_pos(trace['root_pos'])}, {phs}, "
+    return (f"({c_fme(f32(spec['cutoff']))}, {c_fme(mix)}, {takio.c_pos(rebuild(trace['root_snap']))}, {phs}, "
             f"{c_evals(trace)}, {c_onode(trace['tree'])})")
 
 
@@ -784,12 +815,12 @@ def random_opening(rng, size, k, near_end=False):
     ids = []
     for ply in range(40 if near_end else k):
         leg = legal_ids(pos)
-        cand = [i for i, c in leg.items() if c.winner()[1] is None]
+        cand = [i for i, c in leg.items() if outcome(c) is None]
         if not cand or (near_end and ply >= k and len(cand) < len(leg)):
             break
         i = rng.choice(sorted(cand))
         ids.append(i)
-        pos = leg[i]
+        pos = rebuild(leg[i])
     return ids
 
 
@@ -873,7 +904,7 @@ def one_search(spec):
     if os.environ.get("VERIF_COQ_ONLY") and not trace["crash"]:
         problems = []           # self-test of the Coq tie: let the model's replay find the disagreement on its own
     out = {"spec": spec, "key": spec_key(spec), "problems": problems, "stats": dict(stats), "term": None,
-           "root_position": takio.j_pos(trace["root_pos"]),
+           "root_position": j_snap(trace["root_snap"]),
            "impl_tree": tree_summary(trace["tree"], 1) if trace.get("tree") is not None else None}
     if not problems and not stats["inexact_noise_mix"] and not stats["hypothesis_not_met"] and representable(trace):
         out["term"] = case_term(trace)
